@@ -408,9 +408,17 @@ impl NodeSpec {
 /// (otherwise the datagram is queued in the endpoint's mailbox). May call `raw_send*`.
 pub type Responder = Box<dyn FnMut(&World, SockId, &Dgram) -> bool>;
 
+/// Called (with the number of 200 ms real-time waits so far) while the scheduler waits for a node thread
+/// that was handed the baton and has neither parked in its socket read nor closed its socket. A node thread
+/// only computes between two socket reads, so a wait of seconds means it is blocked on something else -
+/// e.g. a full channel towards an API caller. The hook runs on the scheduler thread with the world lock
+/// held: it must not call into the world; it may poll API futures / streams.
+pub type BlockedHook = Box<dyn FnMut(u32)>;
+
 pub struct World {
     pub sh: Arc<Shared>,
     responder: std::cell::RefCell<Option<Responder>>,
+    blocked_hook: std::cell::RefCell<Option<BlockedHook>>,
 }
 
 static WORLD_ACTIVE: Mutex<bool> = Mutex::new(false);
@@ -453,7 +461,7 @@ impl World {
             sched_cv: Condvar::new(),
         });
         dht::verif::set_env(Some(sh.clone()));
-        World { sh, responder: std::cell::RefCell::new(None) }
+        World { sh, responder: std::cell::RefCell::new(None), blocked_hook: std::cell::RefCell::new(None) }
     }
 
     pub fn now(&self) -> u64 {
@@ -482,6 +490,9 @@ impl World {
     pub fn counts(&self) -> (u64, u64) {
         let g = self.sh.lock();
         (g.sends, g.delivers)
+    }
+    pub fn set_blocked_hook(&self, f: Option<BlockedHook>) {
+        *self.blocked_hook.borrow_mut() = f;
     }
     pub fn set_responder(&self, f: Option<Responder>) {
         *self.responder.borrow_mut() = f;
@@ -788,6 +799,13 @@ impl World {
                     if to.timed_out() {
                         cv.notify_all();
                         waited += 1;
+                        if waited % 15 == 0 {
+                            if let Ok(mut slot) = self.blocked_hook.try_borrow_mut() {
+                                if let Some(f) = slot.as_mut() {
+                                    f(waited);
+                                }
+                            }
+                        }
                         if waited > 150 {
                             g.stuck = true;
                             return Step::Stuck;
